@@ -1186,6 +1186,20 @@ class Interp:
                             emit(part, hdl.slice_of(rhs, off, off + part.w), guard)
                             off += part.w
                         return
+                if isinstance(lhs, E) and lhs.op == 'sig' and lhs.args[0].kind == 'object' and isinstance(rhs, E) and \
+                        rhs.op in ('cat', 'const'):
+                    # record.eq(Cat(...)): the record is the Cat of its fields, first field in the least significant bits
+                    o = lhs.args[0].parent
+                    flds = getattr(o, 'fields', None)
+                    if getattr(o, 'is_record', False) and flds and all(f in o.attrs for f in flds):
+                        parts = [hdl.as_expr(self, o.attrs[f]) for f in flds]
+                        if all(isinstance(x, E) and x.op == 'sig' and isinstance(x.w, int) for x in parts) and \
+                                (rhs.op == 'const' or (isinstance(rhs.w, int) and rhs.w >= sum(x.w for x in parts))):
+                            off = 0
+                            for x in parts:
+                                emit(x, hdl.slice_of(rhs, off, off + x.w), guard)
+                                off += x.w
+                            return
                 self.order += 1
                 a = Assign(domain, lhs, rhs, guard, None, self.order, v.loc if v.loc else self.loc(node))
                 sts = self.cur_states()
@@ -1393,6 +1407,43 @@ def _subst_inlined(ir):
         it.guard = tuple(ng)
 
 
+def _ongoing_to_state(ir):
+    """`fsm.ongoing("X")` used at module level: an assignment outside the FSM that is conditioned on `ongoing(X)` is the
+    same statement written inside `with m.State("X")`.  Normalise to the in-state form:
+      * guard literal `ongoing(X)` (positive)           -> dropped from the guard, the assignment becomes a state-X one;
+      * comb flag `f.eq(ongoing(X) & c)` / `f.eq(ongoing(X))`, f having no other driver -> `f.eq(c)` / `f.eq(1)` in state X
+        (outside X the flag is 0 either way: by this statement before, by its reset value after)."""
+    fsm_ids = {f.id: f for f in ir.fsms}
+    if not fsm_ids:
+        return
+
+    def ong(l):
+        e = l.e
+        return isinstance(e, E) and e.op == 'ongoing' and l.pos and e.args[0] in fsm_ids and e.args[1] in fsm_ids[e.args[0]].states
+    for a in ir.assigns:
+        if a.state is not None or a.rhs is None:
+            continue
+        hit = [l for l in a.guard if ong(l)]
+        if len(hit) == 1:
+            a.guard = tuple(l for l in a.guard if l is not hit[0])
+            a.state = (hit[0].e.args[0], hit[0].e.args[1])
+            a.states = (a.state,)
+            continue
+        if hit or a.domain != 'comb' or not isinstance(a.rhs, E) or not isinstance(a.lhs, E) or a.lhs.op != 'sig':
+            continue
+        r = a.rhs
+        if r.op == 'ongoing' or (r.op == '&' and any(isinstance(x, E) and x.op == 'ongoing' for x in r.args)):
+            lits = literals(r, True)
+            hit = [l for l in lits if ong(l)]
+            tgt = a.lhs.args[0].name
+            if len(hit) == 1 and sum(1 for b in ir.assigns if tgt in b.lhs_sigs()) == 1:
+                rest = [l for l in lits if l is not hit[0]]
+                a.guard = tuple(a.guard) + tuple(rest)
+                a.rhs = E('const', val=1, w=1)
+                a.state = (hit[0].e.args[0], hit[0].e.args[1])
+                a.states = (a.state,)
+
+
 _SIGREF = None
 
 
@@ -1439,6 +1490,7 @@ def extract(index, cls, kwargs=None, method='elaborate', collections=True, platf
     ip.callstack = []
     ir.result = ip.call_func(fr, [plat] if len(el[1].args.args) > 1 else [], {}, None)
     _subst_inlined(ir)
+    _ongoing_to_state(ir)
     for si in ip._siglist:
         if getattr(si, 'alias', None) is not None:
             continue
